@@ -12,10 +12,18 @@
   `some []` = empty non-nil.
 
     func (a Decision) MarshalJSON() ([]byte, error) { return []byte(`"` + a.String() + `"`), nil }
-    func (a *Decision) UnmarshalJSON(b []byte) error { *a = string(b) == `"allow"`; return nil }
+    func (a *Decision) UnmarshalJSON(b []byte) error {
+        if string(b) == "null" { return nil }                               // no-op, encoding/json's convention
+        var s string
+        if err := json.Unmarshal(b, &s); err != nil { return err }          // not a JSON string
+        switch s { case "allow": *a = Allow; case "deny": *a = Deny; default: return fmt.Errorf("invalid decision %q", s) }
+        return nil
+    }
 
-  `Decision.UnmarshalJSON` compares the RAW BYTES of the JSON value with `"allow"` and never fails, so this decoder is
-  modelled on the text of the value, not on the tree (the tree cannot see how a string literal is spelled).
+  `Decision.UnmarshalJSON` receives the TEXT of the JSON value; it is modelled on that text (not on the tree), so that the
+  statement "every spelling of the string `allow` decodes to Allow" talks about spellings (`jsonStringToken` is the
+  reading of a string token, tied to `encoding/json` by the correspondence op jstr-token).  Until the repair the function
+  compared the raw bytes with `"allow"` and never failed.
 -/
 import CedarGo.Model.Json.Value
 namespace CedarGo.JsonModel
@@ -142,10 +150,6 @@ def DiagnosticM.norm (d : DiagnosticM) : DiagnosticM := ⟨normSlice d.reasons, 
 /-- `Decision.MarshalJSON`: the bytes written -/
 def encodeDecisionText (allow : Bool) : String := if allow then "\"allow\"" else "\"deny\""
 
-/-- `Decision.UnmarshalJSON(b)`: `b` is the text of the JSON value as it stands in the document (encoding/json hands
-    the bytes of the value over unparsed, without the surrounding white space).  Never an error. -/
-def decodeDecisionText (raw : String) : Bool := raw == "\"allow\""
-
 def isJsonSpace (c : Char) : Bool := c == ' ' || c == '\t' || c == '\n' || c == '\r'
 
 def trimJsonSpace (s : String) : String :=
@@ -194,5 +198,24 @@ def jsonStringToken (tok : String) : Option String :=
 /-- what the property asks of a `Decision` decoder, on the decoded STRING: exactly the two names -/
 def decisionOfString (s : String) : Option Bool :=
   if s == "allow" then some true else if s == "deny" then some false else none
+
+/-- `Decision.UnmarshalJSON(b)`: `b` is the text of the JSON value as it stands in the document (encoding/json hands
+    the bytes of the value over unparsed, without the surrounding white space).  `.ok (some d)`: the receiver is set to
+    `d`; `.ok none`: the receiver is left as it was (`null`); `.error .reject`: an error is returned, the receiver is
+    left as it was.  `json.Unmarshal(b, &s)` into a Go string fails for every text that is not a string token; a token
+    outside the class read by `jsonStringToken` (surrogate escapes) denotes a string holding a character beyond the
+    BMP or U+FFFD, which is neither name, so `none` is an error in either case. -/
+def decodeDecisionText (raw : String) : R (Option Bool) :=
+  if raw == "null" then .ok none
+  else match jsonStringToken raw with
+    | some s =>
+      match decisionOfString s with
+      | some d => .ok (some d)
+      | none => .error .reject
+    | none => .error .reject
+
+/-- the receiver after `json.Unmarshal(raw, &recv)` -/
+def decodeDecisionInto (recv : Bool) (raw : String) : R Bool :=
+  (decodeDecisionText raw).map (fun o => o.getD recv)
 
 end CedarGo.JsonModel
